@@ -12,8 +12,14 @@ type PropDef struct {
 var propOrder = []string{"C01", "C02", "C03", "C04", "C05", "C06", "C07", "C08", "C09", "C11", "C12", "C13", "C14", "C15", "C16", "C17", "C18", "C19", "C20"}
 
 var props = map[string]*PropDef{
+	"C01": {
+		Rules:      []string{"KIND-1", "DEPTH-1"},
+		Decided:    "(in progress)",
+		NotDecided: "(in progress)",
+		Technique:  "sibling matrix + table evaluation",
+	},
 	"C20": {
-		Rules:      []string{"CYCLE-1", "TXN-1", "TXN-2"},
+		Rules:      []string{"DEPTH-1", "CYCLE-1", "TXN-1", "TXN-2"},
 		Decided:    "(in progress)",
 		NotDecided: "(in progress)",
 		Technique:  "path-sensitive go/cfg dataflow",
